@@ -78,6 +78,9 @@ def replay(behaviour):
                                         burst_kwargs={'amp_threshes': (1, 2)} if m == 'amp' else None) for s in (1, 2) for m in ('cycles', 'amp')}
         SHP = {s: compute_shape_features(SIG[s].copy(), FS, FR) for s in (1, 2)}
         LOAD = {s: compute_features(SIG[s].copy(), FS, FR, threshold_kwargs={'min_n_cycles': 2}) for s in (1, 2)}
+        rngn = np.random.default_rng(11)
+        NOISY = {s: np.round((0.06 * SIG[s] + 4.0 * np.sin(2 * np.pi * 0.4 * np.arange(len(SIG[s])) / FS) + 0.01 * rngn.standard_normal(len(SIG[s]))) * 512) / 512 for s in (1, 2)}
+        SHPN = {s: compute_shape_features(NOISY[s].copy(), FS, FR) for s in (1, 2)}        # small rhythm on a large slow wave: inverted flanks (negative volt_rise / volt_decay) occur
         NOB = {s: compute_features(SIG[s].copy(), FS, FR, threshold_kwargs={'amp_fraction_threshold': 1.0, 'min_n_cycles': 3}) for s in (1, 2)}   # no burst at all
     # persistent per-signal option lists for the group functions: the OUTER dictionaries and the list are the user's objects too
     OUTER = {m: [{'burst_method': m, 'threshold_kwargs': D[1 if m == 'cycles' else 3], 'burst_kwargs': D[2], 'center_extrema': 'peak'} for _ in range(2)] for m in ('cycles', 'amp')}
@@ -140,6 +143,10 @@ def replay(behaviour):
                     tab = TAB[(s, m)] if f in ('recompute_edges', 'limit_df', 'epoch_df', 'drop_samples_df', 'plot') else (SHP[s] if f == 'compute_burst_features' else None)
                     if f == 'recompute_edges_no_burst':
                         tab = NOB[s]
+                    elif f == 'limit_df_keeping_all_cycles':
+                        tab = TAB[(s, m)]
+                    elif f == 'compute_burst_features_inverted_flanks':
+                        tab, sig = SHPN[s], NOISY[s]
                     dicts = [D[tk], D[2]] + (OUTER[m] if f.startswith('compute_features_2d') or f == 'compute_features_3d' else [])
                     if f.startswith('compute_features_2d'):
                         sig = SIGS2
@@ -150,8 +157,10 @@ def replay(behaviour):
                         res = compute_features(sig, FS, FR, burst_method=m, burst_kwargs=D[2], threshold_kwargs=D[tk])
                     elif f == 'compute_shape_features':
                         res = compute_shape_features(sig, FS, FR)
-                    elif f == 'compute_burst_features':
+                    elif f in ('compute_burst_features', 'compute_burst_features_inverted_flanks'):
                         res = compute_burst_features(tab, sig, burst_method=m, burst_kwargs=D[2])
+                    elif f == 'limit_df_keeping_all_cycles':
+                        res = limit_df(tab, FS, start=1.0 / FS, stop=None)
                     elif f in ('recompute_edges', 'recompute_edges_no_burst'):
                         res = recompute_edges(tab, D[tk])
                     elif f == 'compute_features_2d':
